@@ -19,6 +19,7 @@ import (
 	"strings"
 	"sync"
 
+	gonumblas "gonum.org/v1/gonum/blas/gonum"
 	"gorgonia.org/tensor"
 )
 
@@ -34,6 +35,11 @@ func init() {
 	progOps["fmt"] = func(w *world, f []string) string {
 		s := fmt.Sprintf("%v", w.ts[atoi(f[1])])
 		return fmt.Sprintf("val:%d", len(s))
+	}
+	// useblas : tensor.Use(the gonum implementation) - selecting the BLAS is serialised by a mutex
+	progOps["useblas"] = func(w *world, f []string) string {
+		tensor.Use(gonumblas.Implementation{})
+		return "ok"
 	}
 	execs["conc"] = runConc
 	gens["C18"] = genC18
@@ -66,12 +72,30 @@ func runShared(dt string, shared []*tensor.Dense, prog string, yield bool) (out 
 			out = append(out, "panic")
 			break
 		}
-		out = append(out, st+w.obsAll())
+		out = append(out, st+w.obsAll()+probe(w))
 		if yield {
 			runtime.Gosched()
 		}
 	}
 	return out
+}
+
+// probe calls the read-only accessors of every tensor of the world (the shared ones included):
+// none of them may write anything, whichever goroutine calls it first
+func probe(w *world) string {
+	var sb strings.Builder
+	for i, t := range w.ts {
+		if w.dead[i] {
+			continue
+		}
+		func() {
+			defer func() { recover() }()
+			sb.WriteString(fmt.Sprintf(" P%d=%d.%d.%d.%v.%v.%v.%v.%v.%v.%v", i, t.Size(), t.DataSize(), t.Dims(), t.IsScalar(), t.IsVector(),
+				t.IsMatrix(), t.IsMaterializable(), t.RequiresIterator(), t.IsView(), t.IsMasked()))
+			sb.WriteString(fmt.Sprintf(".%v.%d.%v", t.Dtype(), t.MemSize(), t.IsNativelyAccessible()))
+		}()
+	}
+	return sb.String()
 }
 
 func runConc(a []string) string {
@@ -86,7 +110,14 @@ func runConc(a []string) string {
 		}
 	}
 	shared := sw.ts
-	sharedBefore := sw.obsAll()
+	// the "before" observation is taken from a TWIN of the shared world: the shared tensors
+	// themselves are not even looked at before the goroutines start (a value that the library
+	// caches lazily inside an operand on first read would otherwise be filled in here)
+	tw := &world{dt: dt}
+	for _, op := range strings.Split(sprog, ";") {
+		tw.step(op)
+	}
+	sharedBefore := tw.obsAll()
 	// the concurrent run comes FIRST (library-internal state that is initialised lazily — the
 	// scalar pools, say — is then touched for the first time by racing goroutines); the sequential
 	// oracle (every program alone, on the same shared tensors) is computed afterwards
@@ -222,6 +253,23 @@ func concOp(r *rng, family string, priv int) string {
 		default:
 			return fmt.Sprintf("bins:add:%d:2:left:reuse.6", sq)
 		}
+	case "blas":
+		// (re)selecting the BLAS implementation while others multiply
+		switch r.intn(3) {
+		case 0:
+			return "useblas"
+		case 1:
+			return fmt.Sprintf("lin:matmul:%d:%d:safe", priv, priv)
+		default:
+			return fmt.Sprintf("lin:matvec:%d:3:safe", sq)
+		}
+	case "blasuse":
+		// goroutines that only (re)select the BLAS implementation (and work on private tensors
+		// without products): the selection itself is serialised by a mutex
+		if r.intn(2) == 0 {
+			return "useblas"
+		}
+		return fmt.Sprintf("bin:add:%d:%d:safe", priv, priv)
 	case "private":
 		// operations that mutate, on private tensors only
 		switch r.intn(5) {
@@ -241,7 +289,7 @@ func concOp(r *rng, family string, priv int) string {
 }
 
 // (arith first: the first racing goroutines of the process then meet the lazily initialised scalar pools)
-var concFamilies = []string{"arith", "access", "reduce", "lin", "dot", "dotvm", "shapeops", "format", "errpath", "private"}
+var concFamilies = []string{"arith", "access", "reduce", "lin", "dot", "dotvm", "shapeops", "format", "errpath", "blasuse", "blas", "private"}
 
 func genC18(tier string, r *rng, emit func(string)) {
 	reps := 6
@@ -255,7 +303,7 @@ func genC18(tier string, r *rng, emit func(string)) {
 			for _, g := range []int{2, 4, 8, 16} {
 				for k := 0; k < reps; k++ {
 					dt := []string{"f64", "f32", "i"}[r.intn(3)]
-					if fam == "lin" || fam == "dot" || fam == "dotvm" || fam == "errpath" {
+					if fam == "lin" || fam == "dot" || fam == "dotvm" || fam == "errpath" || fam == "blas" {
 						dt = []string{"f64", "f32"}[r.intn(2)]
 					}
 					progs := make([]string, g)
